@@ -1,6 +1,8 @@
 // Package spg (fixture): seeded positives for the zero-expected-count rules of C14/C15.
 package spg
 
+import "time"
+
 type Password struct{ s string }
 
 type CharRecipe struct {
@@ -31,4 +33,13 @@ func (r CharRecipe) Entropy() float32 {
 		r.RequireSets[0] = "changed"
 	}
 	return 0
+}
+
+// Alphabet reads the computed field without recomputing it (R15.3) and
+// consults the clock (R15.4).
+func (r CharRecipe) Alphabet() string {
+	if time.Now().Unix()%2 == 0 {
+		return ""
+	}
+	return r.cache[0]
 }
